@@ -13,6 +13,14 @@ from . import proc
 from .proc import HarnessError, NodeHandle
 
 REPLICA_KINDS = ("read", "calc", "probe", "import")
+# digest groups whose canonical value is not idempotent on this tree (a C09 violation, reported by
+# the C09 check); C10 leaves them out of every comparison instead of giving up (forked workers
+# inherit this module state)
+UNSTABLE = set()
+
+
+def stable_groups():
+    return [g for g in E.PUBLIC_GROUPS if g not in UNSTABLE]
 SCHED_KINDS = ("restart",)
 
 
@@ -70,9 +78,9 @@ class Worker(object):
     def check_replica(self):
         d = self.replica.call("digest", "public", E.PUBLIC_GROUPS, None, False)
         now = {g: h for g, (h, _) in d.items()}
-        if now != self.canon_hashes:
-            raise HarnessError("reference replica drifted: %r" % sorted(
-                g for g in now if now[g] != self.canon_hashes[g]))
+        drift = sorted(g for g in now if now[g] != self.canon_hashes[g] and g not in UNSTABLE)
+        if drift:
+            raise HarnessError("reference replica drifted: %r" % drift)
 
     def ref_outcome(self, ev):
         k = ekey(ev)
